@@ -90,9 +90,19 @@ func engineConcSearch(ctx *Ctx) {
 		}
 		var mix []qo
 		baseO := database.SearchOptions{Limit: []int{3, 5, 10}[r.Intn(3)], UseNLP: r.Intn(2) == 0, UseFuzzy: true, AllPlatforms: r.Intn(2) == 0}
+		if rd%2 == 1 && len(words) > 0 {
+			// one options value - including its boost map - shared by every goroutine, as a caller reusing its
+			// SearchOptions would: a search must treat it as read-only
+			baseO.ContextBoosts = map[string]float64{}
+			for i := 0; i < 1+r.Intn(4); i++ {
+				baseO.ContextBoosts[vlib.Word(r, words)] = []float64{1.3, 1.5, 2, 3}[r.Intn(4)]
+			}
+			ctx.R.Path("rounds-with-shared-boost-map", 1)
+		}
 		for i := 0; i < nQ; i++ {
 			mix = append(mix, qo{vlib.GenQuery(r, words, 1+r.Intn(3), []int{0, 0, 2}[r.Intn(3)]), baseO})
 		}
+		boostsBefore := fmt.Sprint(baseO.ContextBoosts)
 		mix = append(mix, qo{"list directory", baseO}, qo{"copy files", baseO})
 		G := []int{4, 8, 16, 32}[r.Intn(4)]
 		K := ctx.Pick(12, 20)
@@ -184,6 +194,11 @@ func engineConcSearch(ctx *Ctx) {
 		ctx.R.Path("loaded-by:"+how, 1)
 		ctx.R.Path("goroutine-rounds", 1)
 		ctx.R.Nontriv(dbName, how, G, K, rd)
+		if after := fmt.Sprint(baseO.ContextBoosts); after != boostsBefore {
+			ctx.R.Violate(vlib.Violation{Property: "C11", Clause: "not-as-if-alone", Path: "SearchOptions.ContextBoosts",
+				Detail:  fmt.Sprintf("the caller's boost map was modified by the searches: %s -> %s (later searches no longer see the options they were given)", boostsBefore, after),
+				Witness: cs})
+		}
 		// conservation of monitor increments
 		rep := mdb.GetPerformanceReport()
 		sum := map[string]float64{}
